@@ -116,6 +116,180 @@ pub fn soup() -> impl Strategy<Value = Src> {
     })
 }
 
+// ---- (c) character-level mutations of well-formed generated templates
+
+#[derive(Clone, Debug, Serialize, Deserialize)]
+pub struct Mutated {
+    pub src: String,
+}
+
+fn wellformed_cfg() -> crate::astgen::GenCfg {
+    crate::astgen::GenCfg { unicode_text: true, depth: 3, include: true, render: true, partials: vec!["p".into()], ..crate::astgen::GenCfg::all() }
+}
+
+/// without raw/comment blocks: text after an unclosed opener must not be able to close it
+/// (`raw` does not nest: an `endraw` further on would end it)
+pub fn wellformed_plain() -> BoxedStrategy<String> {
+    let cfg = crate::astgen::GenCfg { raw: false, comment: false, ..wellformed_cfg() };
+    crate::astgen::nodes(&cfg, 5).prop_map(|n| crate::ast::print(&n)).boxed()
+}
+
+pub fn wellformed() -> BoxedStrategy<String> {
+    crate::astgen::nodes(&wellformed_cfg(), 5).prop_map(|n| crate::ast::print(&n)).boxed()
+}
+
+fn mutated() -> BoxedStrategy<Src> {
+    (wellformed(), proptest::collection::vec((0u8..5, any::<u16>(), any::<u16>()), 1..=3))
+        .prop_map(|(src, muts)| {
+            let mut cs: Vec<char> = src.chars().collect();
+            for (kind, a, b) in muts {
+                if cs.is_empty() {
+                    break;
+                }
+                let i = crate::engine::pick_idx(a, cs.len());
+                match kind {
+                    0 => {
+                        cs.remove(i);
+                    }
+                    1 => {
+                        let c = cs[i];
+                        cs.insert(i, c);
+                    }
+                    2 => {
+                        if i + 1 < cs.len() {
+                            cs.swap(i, i + 1);
+                        }
+                    }
+                    3 => {
+                        let delim = ['{', '}', '%', '-', '|', '\'', '"', ':', ','];
+                        cs[i] = delim[crate::engine::pick_idx(b, delim.len())];
+                    }
+                    _ => {
+                        // delete a whole run up to the next delimiter character
+                        let mut j = i;
+                        while j < cs.len() && !matches!(cs[j], '}' | '%') {
+                            j += 1;
+                        }
+                        cs.drain(i..j.min(cs.len()));
+                    }
+                }
+            }
+            Src { src: cs.into_iter().collect() }
+        })
+        .boxed()
+}
+
+/// nesting depth 32 forced
+fn deep() -> BoxedStrategy<Src> {
+    (proptest::collection::vec(0u8..6, 32), any::<bool>()).prop_map(|(kinds, close)| {
+        let mut s = String::new();
+        let mut ends = Vec::new();
+        for k in kinds {
+            let (o, e) = match k {
+                0 => ("{% if x %}", "{% endif %}"),
+                1 => ("{% for i in (1..2) %}", "{% endfor %}"),
+                2 => ("{% unless y %}", "{% endunless %}"),
+                3 => ("{% capture z %}", "{% endcapture %}"),
+                4 => ("{% case x %}{% when 1 %}", "{% endcase %}"),
+                _ => ("{% comment %}", "{% endcomment %}"),
+            };
+            s.push_str(o);
+            ends.push(e);
+        }
+        s.push_str("{{ x[x[x[x[x[x[x[x[0]]]]]]]] }}");
+        if close {
+            while let Some(e) = ends.pop() {
+                s.push_str(e);
+            }
+        }
+        Src { src: s }
+    }).boxed()
+}
+
+// ---- (d) constructive invalid templates: must be rejected with a message
+
+#[derive(Clone, Debug, Serialize, Deserialize)]
+pub struct Invalid {
+    pub src: String,
+    pub why: String,
+}
+
+fn must_err(c: &Invalid, obs: &mut Obs) -> Check {
+    obs.nt(&c.src);
+    obs.class(crate::engine::intern(&c.why));
+    for conf in [Conf::Stdlib, Conf::Full] {
+        match lq::with_parser(conf, |p| lq::parse(p, &c.src)) {
+            Err(p) => return Err(Failure::new(format!("parse panics: {}", p.site()), format!("conf={conf:?} src={:?} panic={}", c.src, p.what))),
+            Ok(Ok(_)) => return Err(Failure::new(format!("rejected text accepted: {}", c.why), format!("conf={conf:?} src={:?} parsed successfully", c.src))),
+            Ok(Err(m)) if m.trim().is_empty() => return Err(Failure::new("parse error with empty message", format!("src={:?}", c.src))),
+            Ok(Err(_)) => {}
+        }
+    }
+    obs.extra_evals += 1;
+    Ok(())
+}
+
+const BREAKS_MIDDLE: &[(&str, &str)] = &[
+    ("{% nosuchtag %}", "unknown tag"),
+    ("{% endnosuch %}", "unknown tag"),
+    ("{{ x | nosuchfilter }}", "unknown filter"),
+    ("{% assign q = x | nosuchfilter %}", "unknown filter"),
+    ("{{ x | upcase: 1 }}", "too many filter arguments"),
+    ("{{ x | append }}", "too few filter arguments"),
+    ("{{ x | append: 'a', 'b' }}", "too many filter arguments"),
+    ("{{ x | replace }}", "too few filter arguments"),
+    ("{{ 99999999999999999999 }}", "out-of-range literal"),
+    ("{% if x == 99999999999999999999 %}{% endif %}", "out-of-range literal"),
+    ("{% for i in (1..99999999999999999999) %}{% endfor %}", "out-of-range literal"),
+    ("{{ x | plus: -99999999999999999999 }}", "out-of-range literal"),
+    ("{{ 1. }}", "malformed literal"),
+    ("{{ .5 }}", "malformed literal"),
+    ("{% if x %}{% for i in y %}{% endif %}{% endfor %}", "mis-nested blocks"),
+    ("{% for i in y %}{% capture z %}{% endfor %}{% endcapture %}", "mis-nested blocks"),
+    ("{% case x %}{% when 1 %}{% if y %}{% endcase %}{% endif %}", "mis-nested blocks"),
+    ("{% endif %}", "stray end tag"),
+    ("{% endfor %}", "stray end tag"),
+    ("{% else %}", "stray else"),
+    ("{% if %}{% endif %}", "missing condition"),
+    ("{% for %}{% endfor %}", "missing loop header"),
+    ("{% assign %}", "missing assignment"),
+    ("{{ }}", "empty output"),
+    ("{{ | upcase }}", "empty output"),
+    ("{% cycle g: %}", "cycle without values"),
+];
+
+const OPENERS: &[&str] = &["{% if x %}", "{% unless x %}", "{% for i in y %}", "{% tablerow i in y %}", "{% capture z %}", "{% case x %}{% when 1 %}", "{% ifchanged %}", "{% raw %}", "{% comment %}", "{% comment %}{% if x %}", "{% comment %}{% raw %}", "{% if x %}{% comment %}{% unless y %}", "{% comment %}{% comment %}"];
+
+const TAILS: &[(&str, &str)] = &[("{{", "stray delimiter"), ("{%", "stray delimiter"), ("{{ 'abc }}", "unterminated string"), ("{{ \"abc }}", "unterminated string"), ("{% if x", "unterminated tag"), ("{{ x", "unterminated output"), ("{{ x | ", "unterminated output")];
+
+fn invalid() -> BoxedStrategy<Invalid> {
+    let no_quotes = |s: String| s.replace(['\'', '"'], "q");
+    prop_oneof![
+        3 => (wellformed(), proptest::sample::select(BREAKS_MIDDLE.to_vec()), wellformed()).prop_map(|(a, (b, why), c)| Invalid { src: format!("{a}{b}{c}"), why: why.into() }),
+        3 => (wellformed(), proptest::sample::select(OPENERS.to_vec()), wellformed_plain()).prop_map(|(a, o, c)| Invalid { src: format!("{a}{o}{c}"), why: "unclosed block".into() }),
+        2 => (wellformed(), proptest::sample::select(TAILS.to_vec())).prop_map(move |(a, (t, why))| Invalid { src: format!("{}{t}", no_quotes(a)), why: why.into() }),
+    ]
+    .boxed()
+}
+
+fn invalid_fixed() -> Vec<Invalid> {
+    let mut v = Vec::new();
+    for (b, why) in BREAKS_MIDDLE {
+        v.push(Invalid { src: b.to_string(), why: why.to_string() });
+        v.push(Invalid { src: format!("a {{{{ x }}}} {b} z"), why: why.to_string() });
+    }
+    for o in OPENERS {
+        v.push(Invalid { src: o.to_string(), why: "unclosed block".into() });
+        v.push(Invalid { src: format!("{o} text {{{{ x }}}}"), why: "unclosed block".into() });
+        v.push(Invalid { src: format!("{{% if a %}}{o}{{% endif %}}"), why: "unclosed block".into() });
+    }
+    for (t, why) in TAILS {
+        v.push(Invalid { src: t.to_string(), why: why.to_string() });
+        v.push(Invalid { src: format!("abc {{{{ x }}}}{t}"), why: why.to_string() });
+    }
+    v
+}
+
 pub fn run(ctx: &Ctx) {
     ctx.set_rule("E2: every sequence of <=L tokens over the lexical alphabet (joined with and without a blank), E1: random token soups of 5..60 tokens, character-level mutations of well-formed generated templates, constructive invalid templates; each input parsed under stdlib / stdlib+jekyll+shopify+extra / empty configurations. Non-trivial = input contains an opening delimiter ({{ or {%); distinct = distinct source string.");
     ctx.assume("nesting depth <= 32; a parse exceeding the watchdog is reported as inconclusive unless reproducible");
@@ -139,4 +313,8 @@ pub fn run(ctx: &Ctx) {
     let (n, nth) = seq_space(TAGS, tag_len);
     ctx.exhaustive(&format!("tags_len{tag_len}"), n, nth, total);
     ctx.random("soup", ctx.pick(150_000, 3_000_000), soup, total);
+    ctx.random("mutated_wellformed", ctx.pick(100_000, 2_000_000), mutated, total);
+    ctx.random("deep_nesting", ctx.pick(5_000, 100_000), deep, total);
+    ctx.cases("invalid_fixed", invalid_fixed(), must_err);
+    ctx.random("invalid_generated", ctx.pick(40_000, 600_000), invalid, must_err);
 }
